@@ -765,9 +765,40 @@ fn forked_child_keeps_mappings() {
     out::eval(1);
 }
 
+/// A caller-defined dirty bitmap whose constructor can be made to panic (the k-th construction
+/// from now on): constructions that create the bitmap themselves then UNWIND out of the library.
+mod panicky_bitmap {
+    use std::sync::atomic::{AtomicI64, Ordering};
+    use vm_memory::bitmap::{Bitmap, BitmapSlice, NewBitmap, WithBitmapSlice};
+    pub static PANIC_IN: AtomicI64 = AtomicI64::new(-1);
+    #[derive(Debug, Default, Clone, Copy)]
+    pub struct PB;
+    impl<'a> WithBitmapSlice<'a> for PB {
+        type S = PB;
+    }
+    impl BitmapSlice for PB {}
+    impl Bitmap for PB {
+        fn mark_dirty(&self, _offset: usize, _len: usize) {}
+        fn dirty_at(&self, _offset: usize) -> bool {
+            false
+        }
+        fn slice_at(&self, _offset: usize) -> PB {
+            PB
+        }
+    }
+    impl NewBitmap for PB {
+        fn with_len(_len: usize) -> Self {
+            if PANIC_IN.fetch_sub(1, Ordering::SeqCst) == 0 {
+                panic!("bitmap constructor refuses (injected)");
+            }
+            PB
+        }
+    }
+}
+
 /// Requests that must be refused. Whatever they mapped on the way has no owner afterwards and
 /// must be gone when the call returns (judged by `settle`: mmaps of the step == munmaps of the step).
-const FAILING: usize = 9;
+const FAILING: usize = 11;
 fn failing_construction(w: &mut World, which: usize, r: &mut Rng) -> String {
     let len = *r.pick(&[1usize, 100, 4096, 4097, 12288]);
     let base = w.next_start;
@@ -839,6 +870,33 @@ fn failing_construction(w: &mut World, which: usize, r: &mut Rng) -> String {
             let res = Map::from_ranges(&ranges);
             interpose::fail_mmap_after(u64::MAX);
             ("from_ranges-kth-mmap-fails", res.is_err())
+        }
+        9 => {
+            // the caller's bitmap constructor panics for the k-th region of a multi-range
+            // construction: the library unwinds; whatever it had mapped by then has no owner
+            use panicky_bitmap::{PANIC_IN, PB};
+            let n = 1 + r.usize_below(3);
+            let ranges: Vec<(GuestAddress, usize)> = (0..n).map(|i| (GuestAddress(base + i as u64 * 0x1_0000), len)).collect();
+            PANIC_IN.store(r.below(n as u64) as i64, std::sync::atomic::Ordering::SeqCst);
+            let res = guarded(|| vm_memory::GuestMemoryMmap::<PB>::from_ranges(&ranges).is_ok());
+            PANIC_IN.store(-1, std::sync::atomic::Ordering::SeqCst);
+            ("from_ranges-bitmap-constructor-panics", res.is_err())
+        }
+        10 if !cfg!(miri) => {
+            use panicky_bitmap::{PANIC_IN, PB};
+            PANIC_IN.store(0, std::sync::atomic::Ordering::SeqCst);
+            let with_file = r.chance(1, 2);
+            let res = guarded(|| {
+                if with_file {
+                    let (f, path) = named_temp_file("c12p", len as u64 + 4096);
+                    let _ = std::fs::remove_file(&path);
+                    vm_memory::GuestRegionMmap::<PB>::from_range(GuestAddress(base), len, Some(FileOffset::new(f, 4096))).is_ok()
+                } else {
+                    vm_memory::GuestRegionMmap::<PB>::from_range(GuestAddress(base), len, None).is_ok()
+                }
+            });
+            PANIC_IN.store(-1, std::sync::atomic::Ordering::SeqCst);
+            (if with_file { "from_range(file)-bitmap-constructor-panics" } else { "from_range-bitmap-constructor-panics" }, res.is_err())
         }
         _ => {
             // insert_region of an overlapping region: the refused Arc is the last reference
